@@ -48,6 +48,23 @@ def gen_case(rng, i):
     c["max_dim"] = 1 if i % 12 == 7 else rng.choice([2, 3, 1024])
     shapes = [rng.choice([[3, 4], [4, 4], [2, 3, 2], [5]]) for _ in range(rng.randint(2, 3))]
     nsteps = 7
+    variant = (i // 6) % 3
+    if variant == 1:
+        # two parameters of the SAME shape whose gradients alternate: the masked lists change while their lengths and tensor
+        # metadata do not, so Dynamo's guards do not force a recompilation
+        sh = rng.choice([[3, 4], [4, 4], [5]])
+        shapes = [sh, sh]
+        c["max_dim"] = 1024
+        steps = []
+        for s in range(nsteps):
+            pres = [True, True] if s in (0, 6) else ([True, False] if s % 2 else [False, True])
+            steps.append({"present": [pres], "gseed": rng.randrange(1 << 30), "edits": None})
+        return {"groups": [{"cfg": c, "shapes": shapes}], "init_seed": rng.randrange(1 << 30), "steps": steps}
+    if variant == 2:
+        # twin parameter groups: identical hyperparameters and shapes (the compiled per-group step is shared by all groups)
+        steps = [{"present": [[True] * len(shapes), [True] * len(shapes)], "gseed": rng.randrange(1 << 30), "edits": None} for s in range(nsteps)]
+        steps[3]["present"][1][0] = False
+        return {"groups": [{"cfg": c, "shapes": shapes}, {"overrides": {}, "shapes": list(shapes)}], "init_seed": rng.randrange(1 << 30), "steps": steps}
     flip = rng.randrange(len(shapes))
     steps = []
     for s in range(nsteps):
